@@ -5,8 +5,7 @@ COQ_TARGETS = ["Check/TightCases.vo"]
 TRUSTED_BASE = ["typing's Union normalisation / == / hash as modelled (Model/Types.v)",
                 "Model/Tight.v (tightb) is the formal reading of the property's prose, DESIGN 4/C05"]
 ASSUMPTIONS = ["a generator object's elements are unobservable: Iterator[Any] is tight for generator objects"]
-PARTIAL = ["C05_full (infer k vs = Some t -> tightb t vs) is stated but not proved: the merge induction shrink_tight is open; "
-           "tightb is evaluated by vm_compute on the implementation's output for every generated case instead"]
+PARTIAL = []
 
 
 def run(ctx):
@@ -41,14 +40,16 @@ def replay(ctx, payload):
     print(payload)
     return 0
 
-CLAIM = {'note': 'Partial: the merge induction (shrink_tight) is not proved; tightb on the implementation output is '
-         'a Coq-evaluated test, not a theorem. Trusted: Coq kernel + vm_compute; harness reifiers; '
-         'Model/Tight.v as the formal reading of the prose.',
- 'ref': '4/C05',
- 'technique': 'Coq model + partial theorems; vm_compute differential correspondence with the tightness '
-              'predicate evaluated in Coq',
- 'text': 'Executable Coq reading tightb of the property (Model/Tight.v), proved partial theorems (exact '
-         'classes at leaves; Any is tight only for the empty collection; tightness entails exact-class '
-         'membership for atomic types); the full statement C05_full is kept in Props/C05.v and is decided '
-         "per generated case by vm_compute of tightb on the implementation's own output together with the "
-         'multiset correspondence model = implementation.'}
+CLAIM = {
+    "text": "Coq theorem infer_tight (= C05_full): for every TypedDict limit k and every finite collection of well-formed values, "
+            "the inferred type is tight for the collection under the executable reading Model/Tight.v (every union alternative "
+            "at every nesting position witnessed by an observed value, exact runtime classes, Any only where nothing was seen, "
+            "TypedDict keys required iff present in every observed dict and optional iff missing from some); plus get_type_tight, "
+            "infer_exact_member and merge_tight (merging the types of many traces keeps tightness). The same predicate is "
+            "evaluated by vm_compute on the implementation's output for every generated case together with the multiset "
+            "correspondence model = implementation.",
+    "note": "Trusted: Coq kernel + vm_compute; harness reifiers; Model/Tight.v as the formal reading of the prose (two over-strict "
+            "clauses found by the proof attempt were corrected); typing's Union/==/hash as modelled.",
+    "technique": "Coq proof by induction on the merge fuel / nested induction on values + vm_compute differential correspondence",
+    "ref": "4/C05",
+}
